@@ -14,7 +14,8 @@ from harness.decoders import qapfiles
 RULE = ("one fresh interpreter per generated program on the real qaptools backend (external binaries replaced by failing "
         "stubs, scratch cwd), with the eight interface functions wrapped in the child to log an independent trace "
         "(values, wire names, constraints, context). Programs: main-context arithmetic with public values and outputs, "
-        "@subqap functions with + - * bodies, flat / list / tuple arguments and results, called 1-4 times, nested calls, "
+        "@subqap functions with + - * bodies, flat / list / tuple arguments and results (incl. functions returning nothing or a plain "
+        "int), called 1-4 times, nested calls, "
         "optionally two different bodies registered under one name, negative and large witness values. Oracle: every "
         "equation of pysnark_eqs holds mod p on pysnark_wires + pysnark_values; every public value has its wire, its o_k "
         "I/O entry with the same value and the linking equation; every traced constraint appears (context-free canonical "
@@ -68,7 +69,7 @@ def draw_program(draw):
             elif k == 4:
                 body.append(["mulc", draw(st.integers(0, nloc - 1)), draw(st.sampled_from([-2, -1, 2, 3, P - 1, P + 2]))])
                 nloc += 1
-            elif fi > 0 and k == 5:
+            elif fi > 0 and k >= 5:
                 inner = draw(st.integers(0, fi - 1))
                 ia = [draw(st.integers(0, nloc - 1)) for _ in range(funcs[inner]["nargs"])]
                 body.append(["call", inner, ia])
@@ -76,19 +77,23 @@ def draw_program(draw):
             else:
                 body.append(["bin", "*", draw(st.integers(0, nloc - 1)), draw(st.integers(0, nloc - 1))])
                 nloc += 1
-        nres = draw(st.integers(1, min(3, nloc)))
+        nres = draw(st.sampled_from([0, 1, 1, 1, 2, 3]))
+        nres = min(nres, nloc)
         res = [draw(st.integers(0, nloc - 1)) for _ in range(nres)]
-        if all(r < nargs for r in res):
+        if nres and all(r < nargs for r in res):
             res[-1] = nloc - 1
         funcs.append({"name": "f%d" % fi, "nargs": nargs, "shape": shape, "body": body, "nres": nres, "res": res,
-                      "rshape": draw(st.sampled_from(["tuple", "list"])) if nres > 1 else "single"})
+                      "rshape": (draw(st.sampled_from(["tuple", "list"])) if nres > 1 else "single") if nres else draw(st.sampled_from(["none", "plainint"]))})
     # optional second body under an existing name
     clash = None
     if draw(st.integers(0, 5)) == 0:
         base = draw(st.integers(0, nfun - 1))
         f = json.loads(json.dumps(funcs[base]))
         f["body"] = f["body"] + [["addc", draw(st.integers(0, f["nargs"] - 1)), draw(st.integers(6, 9))]]
-        f["res"] = f["res"][:-1] + [f["nargs"] + sum(1 if s[0] != "call" else funcs[s[1]]["nres"] for s in f["body"]) - 1]
+        if f["nres"]:
+            f["res"] = f["res"][:-1] + [f["nargs"] + sum(1 if s[0] != "call" else funcs[s[1]]["nres"] for s in f["body"]) - 1]
+        else:
+            f["body"] = f["body"] + [["bin", "*", 0, 0]]
         clash = {"base": base, "func": f}
     main = []
     nv = 0
@@ -145,10 +150,17 @@ def render(prog):
             else:
                 g = funcs[s[1]]
                 names = ["t%d" % (len(loc) + k) for k in range(g["nres"])]
-                L.append("    %s = %s" % (", ".join(names) + ("," if g["nres"] == 1 and g["rshape"] != "single" else ""), call_expr(g, "fn_%s" % g["name"], [loc[i] for i in s[2]])))
+                if g["nres"]:
+                    L.append("    %s = %s" % (", ".join(names) + ("," if g["nres"] == 1 and g["rshape"] != "single" else ""), call_expr(g, "fn_%s" % g["name"], [loc[i] for i in s[2]])))
+                else:
+                    L.append("    %s" % call_expr(g, "fn_%s" % g["name"], [loc[i] for i in s[2]]))
                 loc.extend(names)
         res = [loc[i] for i in f["res"]]
-        if f["rshape"] == "single":
+        if f["rshape"] == "none":
+            L.append("    return None")
+        elif f["rshape"] == "plainint":
+            L.append("    return 7")
+        elif f["rshape"] == "single":
             L.append("    return %s" % res[0])
         elif f["rshape"] == "tuple":
             L.append("    return (%s,)" % ", ".join(res))
@@ -182,7 +194,10 @@ def render(prog):
             py = "fn_%s%s" % (f["name"], "_alt" if s[3] else "")
             names = ["v%d" % (len(v) + k) for k in range(f["nres"])]
             L.append('CALLS.append(["%s", %d, %d])' % (f["name"], f["nargs"], f["nres"]))
-            L.append("%s = %s" % (", ".join(names) + ("," if f["nres"] == 1 and f["rshape"] != "single" else ""), call_expr(f, py, [v[i] for i in s[2]])))
+            if f["nres"]:
+                L.append("%s = %s" % (", ".join(names) + ("," if f["nres"] == 1 and f["rshape"] != "single" else ""), call_expr(f, py, [v[i] for i in s[2]])))
+            else:
+                L.append(call_expr(f, py, [v[i] for i in s[2]]))
             v.extend(names)
     L.append('json.dump({"log": LOG, "calls": CALLS}, open("trace.json", "w"))')
     return "\n".join(L) + "\n"
@@ -324,6 +339,8 @@ def analyse(prog, tmp, r):
     blocks = {}
     for e in eqs:
         if e[0] == "ioblock":
+            if (e[1], e[2]) in blocks:
+                return "block name %s declared twice in call %s (wires %r and %r)" % (e[2], e[1], blocks[(e[1], e[2])], e[3]), info
             blocks[(e[1], e[2])] = e[3]
     glues = [e for e in eqs if e[0] == "glue"]
     if len(glues) != len([1 for ent in log if False]) + count_calls(log, fn_of):
